@@ -149,6 +149,21 @@ def noTrailingBackslash : List Char → Prop
   | [c] => c ≠ '\\'
   | _ :: cs => noTrailingBackslash cs
 
+/-- one string of a line: the whitespace before it, its quote character, its content -/
+structure StrItem where
+  ws : List Char
+  q : Char
+  s : List Char
+deriving Repr
+
+def StrItem.WF (i : StrItem) : Prop :=
+  (∀ c ∈ i.ws, isWs c = true) ∧ (i.q = '"' ∨ i.q = '\'') ∧ noTrailingBackslash i.s
+
+/-- the text of several quoted strings (possibly touching each other) and trailing whitespace -/
+def lineOf : List StrItem → List Char → List Char
+  | [], tail => tail
+  | i :: is, tail => i.ws ++ (encode i.q i.s ++ lineOf is tail)
+
 instance decNoTrailingBackslash : (s : List Char) → Decidable (noTrailingBackslash s)
   | [] => isTrue trivial
   | [c] => inferInstanceAs (Decidable (c ≠ '\\'))
